@@ -1,5 +1,7 @@
 from typing import Type
 
+import pandas as pd
+
 from reamber.base.lists.TimedList import TimedList
 
 
@@ -21,10 +23,8 @@ class ConvertBase:
         for to_, from_ in mapping.items():
             # Assign by position: the source rows may carry any labels (after a
             # filter, a sort or stacking), the buffer's are always 0..n-1.
-            buffer.__setattr__(
-                to_,
-                src.__getattribute__(from_).to_numpy()
-                if isinstance(from_, str)
-                else from_,
-            )
+            value = src.__getattribute__(from_) if isinstance(from_, str) else from_
+            if isinstance(value, pd.Series):
+                value = value.to_numpy()
+            buffer.__setattr__(to_, value)
         return buffer
